@@ -3,672 +3,9 @@
    regenerated from /repo on every run (Generated/SrcEncode.v, by harness/py2gal.py with the configurations C01_* of
    harness/src_functions.py), for all inputs; and the id-encoding statements of Screen.__init__ (Generated/SrcScreenIds.v)
    equal the id part of the constructor model Screen.mk_screen.  Each numpy / pandas call is one primitive with a list meaning (end of
-   Model/Encode.v); the order and wiring of the calls is the translation's. *)
-From Coq Require Import ZArith List Bool Lia ZifyBool Arith Sorted.
-From Batchie Require Import Lib.Sexp Lib.PyRt Generated.Consts Generated.SrcArithC01 Model.Encode Model.Screen Generated.SrcEncode
-  Generated.SrcScreenIds Proofs.PyRtLemmas Proofs.C01Sort Proofs.C01Encode Proofs.C03Screen.
-Import ListNotations.
-Open Scope Z_scope.
-
-(* ---------- sorting ---------- *)
-Section SortBy.
-Context {K : Type} (cmp : K -> K -> comparison) (HC : CmpSpec cmp).
-
-(* a strictly sorted list is a fixed point of the (stable insertion) sort *)
-Lemma sort_by_of_sorted l : SSorted cmp l -> sort_by cmp l = l.
-Proof.
-  induction 1 as [|a l Hs IH Hall]; [reflexivity|].
-  unfold sort_by in *. cbn [fold_right]. rewrite IH.
-  destruct l as [|x r]; [reflexivity|]. cbn [insert_sorted].
-  inversion Hall as [|? ? Hax _]; subst. unfold lt in Hax. now rewrite Hax.
-Qed.
-
-Lemma insert_sorted_In k l x : In x (insert_sorted cmp k l) <-> x = k \/ In x l.
-Proof.
-  induction l as [|y l IH]; cbn [insert_sorted In]; [intuition|].
-  destruct (cmp k y); cbn [In]; rewrite ?IH; intuition.
-Qed.
-
-Lemma sort_by_In l x : In x (sort_by cmp l) <-> In x l.
-Proof.
-  induction l as [|y l IH]; cbn [sort_by fold_right In]; [tauto|].
-  fold (sort_by cmp l). rewrite insert_sorted_In, IH. intuition.
-Qed.
-
-(* inserting a key that is not there into a strictly sorted list keeps it strictly sorted *)
-Lemma insert_sorted_sorted k l : SSorted cmp l -> ~ In k l -> SSorted cmp (insert_sorted cmp k l).
-Proof.
-  induction l as [|y l IH]; intros Hs Hn; cbn [insert_sorted]; [repeat constructor|].
-  inversion Hs as [|? ? Hs' Hall]; subst.
-  assert (Hlt : forall z, cmp k y = Lt -> In z (y :: l) -> lt cmp k z).
-  { intros z E [<-|Hz]; [exact E|]. rewrite Forall_forall in Hall. eapply (cmp_trans _ HC); [exact E | now apply Hall]. }
-  destruct (cmp k y) eqn:E.
-  - apply (cmp_eq _ HC) in E. subst. exfalso. apply Hn. now left.
-  - constructor; [exact Hs|]. apply Forall_forall. intros z Hz. now apply Hlt.
-  - constructor; [apply IH; [exact Hs' | intros X; apply Hn; now right]|].
-    apply Forall_forall. intros z Hz. apply insert_sorted_In in Hz as [->|Hz].
-    + now apply cmp_gt_lt.
-    + rewrite Forall_forall in Hall. now apply Hall.
-Qed.
-
-Lemma sort_by_sorted l : NoDup l -> SSorted cmp (sort_by cmp l).
-Proof.
-  induction 1 as [|a l Hn Hd IH]; cbn [sort_by fold_right]; [constructor|].
-  fold (sort_by cmp l). apply insert_sorted_sorted; [exact IH|]. now rewrite sort_by_In.
-Qed.
-
-(* sorting a duplicate-free list = the model's sort_uniq *)
-Lemma sort_by_NoDup l : NoDup l -> sort_by cmp l = sort_uniq cmp l.
-Proof.
-  intros H. apply (SSorted_unique cmp HC); [now apply sort_by_sorted | now apply sort_uniq_sorted|].
-  intros x. now rewrite sort_by_In, (sort_uniq_In cmp HC).
-Qed.
-End SortBy.
-
-(* ---------- numpy_array_is_0_indexed_integers ---------- *)
-Lemma all_true_eq_Z a : forall b, length a = length b -> all_true (np_eq_Z a b) = Zlist_eqb a b.
-Proof.
-  unfold all_true, np_eq_Z.
-  induction a as [|x a IH]; intros [|y b] Hl; cbn [length] in Hl; try discriminate; [reflexivity|].
-  cbn [combine map forallb Zlist_eqb fst snd]. rewrite IH by lia. reflexivity.
-Qed.
-
-Lemma zrange_pred n : zrange (Z.of_nat n - 1) = map Z.of_nat (seq 0 (n - 1)).
-Proof. unfold zrange. f_equal. f_equal. lia. Qed.
-
-Lemma zrange_of_nat n : zrange (Z.of_nat n) = map Z.of_nat (seq 0 n).
-Proof. unfold zrange. now rewrite Nat2Z.id. Qed.
-
-Theorem src_valid_ids_is_model : forall (isint : bool) (ids : list Z),
-  src_numpy_array_is_0_indexed_integers (isint, ids) = Ok (zero_indexed isint ids).
-Proof.
-  intros isint ids. unfold src_numpy_array_is_0_indexed_integers, zero_indexed, arr_is_int, np_contains, np_unique_ids, np_sort_Z.
-  cbn [fst snd]. destruct isint; cbn [negb]; [|reflexivity].
-  rewrite (sort_by_of_sorted Z.compare) by apply (sort_uniq_sorted Z.compare Zcmp_spec).
-  set (u := sort_uniq Z.compare ids).
-  destruct (existsb (Z.eqb CONTROL_SENTINEL_VALUE) ids) eqn:E.
-  - rewrite zrange_pred. cbn [app]. rewrite all_true_eq_Z; [reflexivity|].
-    cbn [length]. rewrite map_length, seq_length.
-    apply existsb_exists in E as (z & Hz & _). apply (sort_uniq_In Z.compare Zcmp_spec) in Hz. fold u in Hz.
-    destruct u; [contradiction | cbn [length]; lia].
-  - rewrite zrange_of_nat, all_true_eq_Z; [reflexivity|]. now rewrite map_length, seq_length.
-Qed.
-
-(* ---------- frames ---------- *)
-Definition lab {R} (s : Z) (l : list R) : frame R := combine (zseq s (length l)) l.
-
-Lemma df_fresh_lab {R} (l : list R) : df_fresh l = lab 0 l.
-Proof. unfold df_fresh, lab. now rewrite zseq_0. Qed.
-
-Lemma lab_cons {R} s (a : R) l : lab s (a :: l) = (s, a) :: lab (s + 1) l.
-Proof. unfold lab. cbn [length]. rewrite zseq_S. reflexivity. Qed.
-
-Lemma lab_rows {R} (l : list R) : forall s, map snd (lab s l) = l.
-Proof. induction l as [|a l IH]; intros s; [reflexivity|]. rewrite lab_cons. cbn [map snd]. now rewrite IH. Qed.
-
-Lemma lab_index {R} (l : list R) : forall s, map fst (lab s l) = zseq s (length l).
-Proof.
-  induction l as [|a l IH]; intros s; [reflexivity|]. rewrite lab_cons. cbn [map fst length]. now rewrite IH, zseq_S.
-Qed.
-
-Lemma lab_map {R T} (g : R -> T) (l : list R) : forall s, lab s (map g l) = map (fun p => (fst p, g (snd p))) (lab s l).
-Proof.
-  induction l as [|a l IH]; intros s; [reflexivity|]. cbn [map]. rewrite !lab_cons. cbn [map fst snd]. now rewrite IH.
-Qed.
-
-(* drop_duplicates: the values that remain are duplicate-free and are the values there were *)
-Section DropDups.
-Context {R : Type} (eqb : R -> R -> bool) (Heq : forall a b, eqb a b = true <-> a = b).
-
-Lemma existsb_eqb_In r seen : existsb (eqb r) seen = true <-> In r seen.
-Proof.
-  rewrite existsb_exists. split.
-  - intros (x & Hx & E). apply Heq in E. now subst.
-  - intros H. exists r. split; [exact H | now apply Heq].
-Qed.
-
-Lemma drop_dups_from_spec (d : frame R) : forall seen,
-  NoDup (map snd (drop_dups_from eqb seen d)) /\
-  forall x, In x (map snd (drop_dups_from eqb seen d)) <-> In x (map snd d) /\ ~ In x seen.
-Proof.
-  induction d as [|[l r] d IH]; intros seen; cbn [drop_dups_from map snd].
-  - split; [constructor | cbn [In]; tauto].
-  - destruct (existsb (eqb r) seen) eqn:E.
-    + destruct (IH seen) as [Hn Hi]. split; [exact Hn|]. intros x. rewrite Hi. cbn [In].
-      apply existsb_eqb_In in E. split; [tauto|]. intros [[<-|Hx] Hs]; [contradiction | tauto].
-    + destruct (IH (r :: seen)) as [Hn Hi]. cbn [map snd]. split.
-      * constructor; [|exact Hn]. rewrite Hi. cbn [In]. tauto.
-      * intros x. cbn [In]. rewrite Hi. cbn [In].
-        assert (Hr : ~ In r seen) by (intros X; apply existsb_eqb_In in X; congruence).
-        split.
-        -- intros [<-|[Hx Hs]]; [tauto|]. split; [tauto|]. intros X. apply Hs. now right.
-        -- intros [[<-|Hx] Hs]; [now left|]. destruct (existsb (eqb x) [r]) eqn:Ex.
-           ++ apply existsb_eqb_In in Ex as [<-|[]]. now left.
-           ++ right. split; [exact Hx|]. intros [<-|X]; [|contradiction].
-              assert (Y : existsb (eqb r) [r] = true) by (apply existsb_eqb_In; now left). congruence.
-Qed.
-End DropDups.
-
-Lemma insert_sorted_rows {R} (cmp : R -> R -> comparison) (p : Z * R) (d : frame R) :
-  map snd (insert_sorted (fun a b => cmp (snd a) (snd b)) p d) = insert_sorted cmp (snd p) (map snd d).
-Proof.
-  induction d as [|q d IH]; cbn [insert_sorted map snd]; [reflexivity|].
-  destruct (cmp (snd p) (snd q)); cbn [map snd]; now rewrite ?IH.
-Qed.
-
-Lemma df_sort_values_rows {R} (cmp : R -> R -> comparison) (d : frame R) :
-  map snd (df_sort_values cmp d) = sort_by cmp (map snd d).
-Proof.
-  unfold df_sort_values, sort_by. induction d as [|p d IH]; cbn [fold_right map]; [reflexivity|].
-  now rewrite insert_sorted_rows, IH.
-Qed.
-
-(* df.drop_duplicates().sort_values(by=<all columns>).reset_index(drop=True) = the model's sort_uniq, freshly labelled *)
-Lemma dedup_sort_reset {R} (eqb : R -> R -> bool) (cmp : R -> R -> comparison) (l : list R) :
-  (forall a b, eqb a b = true <-> a = b) -> CmpSpec cmp ->
-  df_reset_drop (df_sort_values cmp (df_drop_duplicates eqb (df_fresh l))) = df_fresh (sort_uniq cmp l).
-Proof.
-  intros Heq HC. unfold df_reset_drop. f_equal. rewrite df_sort_values_rows.
-  destruct (drop_dups_from_spec eqb Heq (df_fresh l) []) as [Hn Hi]. fold (df_drop_duplicates eqb (df_fresh l)) in Hn, Hi.
-  rewrite (sort_by_NoDup cmp HC) by exact Hn. apply (sort_uniq_ext cmp HC). intros x. rewrite Hi.
-  rewrite df_fresh_lab, lab_rows. cbn [In]. tauto.
-Qed.
-
-(* ---------- the control columns and the id assignment of encode_treatment_arrays_to_0_indexed_ids ---------- *)
-Lemma control_column ctrl (su : list tkey) :
-  series_or (series_le0 (kcol_dose (df_fresh su))) (series_eq_name (kcol_name (df_fresh su)) ctrl) = map (is_control ctrl) su.
-Proof.
-  unfold kcol_dose, kcol_name. rewrite <- !(map_map snd), df_fresh_lab, lab_rows.
-  unfold series_or, series_le0, series_eq_name.
-  induction su as [|k su IH]; cbn [map combine fst snd]; [reflexivity|]. now rewrite IH.
-Qed.
-
-Lemma add_control_column ctrl (su : list tkey) : forall s,
-  df_add_col (lab s su) (map (is_control ctrl) su) = lab s (map (fun k => (k, is_control ctrl k)) su).
-Proof.
-  unfold df_add_col. induction su as [|k su IH]; intros s; [reflexivity|].
-  cbn [map]. rewrite !lab_cons. cbn [combine map fst snd]. now rewrite IH.
-Qed.
-
-(* the frame after `df_unique["new_index"] = df_unique.index - df_unique.is_control.cumsum()`, row by row:
-   (label, ((index column, ((name, dose), is_control)), label - inclusive running count of controls)) *)
-Fixpoint id_rows (ctrl : name) (s cum : Z) (su : list tkey) : nframe :=
-  match su with
-  | [] => []
-  | k :: r =>
-      let c := is_control ctrl k in
-      let cum' := if c then cum + 1 else cum in
-      (s, ((s, (k, c)), s - cum')) :: id_rows ctrl (s + 1) cum' r
-  end.
-
-Lemma new_index_column ctrl (su : list tkey) : forall s cum,
-  let d2 : iframe := lab s (lab s (map (fun k => (k, is_control ctrl k)) su)) in
-  df_add_col d2 (series_sub (df_index d2) (cumsum_from cum (icol_is_control d2))) = id_rows ctrl s cum su.
-Proof.
-  cbv zeta. unfold df_add_col, series_sub, df_index, icol_is_control.
-  induction su as [|k su IH]; intros s cum; [reflexivity|].
-  cbn [map]. rewrite !lab_cons. cbn [map fst snd cumsum_from combine id_rows]. now rewrite IH.
-Qed.
-
-Lemma id_rows_index ctrl su : forall s cum, df_index (id_rows ctrl s cum su) = zseq s (length su).
-Proof.
-  unfold df_index. induction su as [|k su IH]; intros s cum; [reflexivity|].
-  cbn [id_rows map fst length]. now rewrite IH, zseq_S.
-Qed.
-
-Lemma id_rows_is_control ctrl su : forall s cum, ncol_is_control (id_rows ctrl s cum su) = map (is_control ctrl) su.
-Proof.
-  unfold ncol_is_control. induction su as [|k su IH]; intros s cum; [reflexivity|].
-  cbn [id_rows map fst snd]. now rewrite IH.
-Qed.
-
-(* the labels selected by a boolean column *)
-Lemma series_select_In {A} (f : A -> bool) (l : list A) : forall s z,
-  In z (series_select (map f l) (zseq s (length l))) <-> exists i a, nth_error l i = Some a /\ f a = true /\ z = s + Z.of_nat i.
-Proof.
-  unfold series_select. induction l as [|a l IH]; intros s z.
-  - cbn. split; [tauto|]. intros (i & a & H & _). destruct i; discriminate.
-  - cbn [length map]. rewrite zseq_S. cbn [combine filter fst].
-    assert (Htl : In z (map snd (filter fst (combine (map f l) (zseq (s + 1) (length l))))) <->
-                  exists i a', nth_error (a :: l) (S i) = Some a' /\ f a' = true /\ z = s + Z.of_nat (S i)).
-    { rewrite IH. cbn [nth_error]. split; intros (i & a' & H1 & H2 & H3); exists i, a'; repeat split; try assumption; lia. }
-    destruct (f a) eqn:E; cbn [map snd In]; rewrite Htl; split.
-    + intros [<-|(i & a' & H)]; [exists 0%nat, a; cbn [nth_error]; repeat split; [exact E | lia] | exists (S i), a'; exact H].
-    + intros ([|i] & a' & H1 & H2 & H3); [left; lia | right; exists i, a'; now repeat split].
-    + intros (i & a' & H). exists (S i), a'. exact H.
-    + intros ([|i] & a' & H1 & H2 & H3); [cbn [nth_error] in H1; congruence | exists i, a'; now repeat split].
-Qed.
-
-Lemma selected_labels {A} (f : A -> bool) (l : list A) s i a :
-  nth_error l i = Some a -> existsb (Z.eqb (s + Z.of_nat i)) (series_select (map f l) (zseq s (length l))) = f a.
-Proof.
-  intros Hn. apply eq_true_iff_eq. rewrite existsb_exists. split.
-  - intros (z & Hz & E). apply Z.eqb_eq in E. subst z. apply series_select_In in Hz as (j & b & H1 & H2 & H3).
-    assert (j = i) by lia. subst j. congruence.
-  - intros Hf. exists (s + Z.of_nat i). split; [|apply Z.eqb_refl]. apply series_select_In. now exists i, a.
-Qed.
-
-(* override of the selected labels, then `del index`, `del is_control` = the model's assignment *)
-Lemma id_rows_final ctrl su : forall s cum sel,
-  (forall i k, nth_error su i = Some k -> existsb (Z.eqb (s + Z.of_nat i)) sel = is_control ctrl k) ->
-  map snd (df_del_is_control (df_del_index (df_loc_set (id_rows ctrl s cum su) sel CONTROL_SENTINEL_VALUE)))
-  = assign_from ctrl s cum su.
-Proof.
-  unfold df_del_is_control, df_del_index, df_loc_set.
-  induction su as [|k su IH]; intros s cum sel H; [reflexivity|].
-  cbn [id_rows assign_from map fst snd].
-  pose proof (H 0%nat k eq_refl) as H0. cbn [Z.of_nat] in H0. rewrite Z.add_0_r in H0. rewrite H0.
-  rewrite IH.
-  - destruct (is_control ctrl k); reflexivity.
-  - intros i k' Hi. rewrite <- (H (S i) k' Hi). f_equal. f_equal. lia.
-Qed.
-
-(* the whole `else` branch: the frame df_unique ends as, from the frame df *)
-Definition src_built_frame (ctrl : name) (df : kframe) : mframe :=
-  let df_unique : kframe := df_reset_drop (df_sort_values tkey_cmp (df_drop_duplicates tkey_eqb df)) in
-  let is_control := series_or (series_le0 (kcol_dose df_unique)) (series_eq_name (kcol_name df_unique) ctrl) in
-  let df_unique : cframe := df_add_col df_unique is_control in
-  let df_unique : iframe := df_reset_keep df_unique in
-  let df_unique : nframe := df_add_col df_unique (series_sub (df_index df_unique) (series_cumsum (icol_is_control df_unique))) in
-  let selection := series_select (ncol_is_control df_unique) (df_index df_unique) in
-  let df_unique : nframe := df_loc_set df_unique selection CONTROL_SENTINEL_VALUE in
-  df_del_is_control (df_del_index df_unique).
-
-Lemma src_built_frame_rows ctrl (keys : list tkey) :
-  map snd (src_built_frame ctrl (df_fresh keys)) = build_tmapping ctrl keys.
-Proof.
-  unfold src_built_frame, build_tmapping. cbv zeta.
-  rewrite (dedup_sort_reset tkey_eqb tkey_cmp keys tkey_eqb_eq tkey_cmp_spec).
-  set (su := sort_uniq tkey_cmp keys). rewrite control_column.
-  rewrite (df_fresh_lab su), add_control_column. unfold df_reset_keep. rewrite df_fresh_lab.
-  unfold series_cumsum. rewrite new_index_column.
-  rewrite id_rows_index, id_rows_is_control. apply id_rows_final.
-  intros i k Hi. apply (selected_labels (is_control ctrl) su 0 i k Hi).
-Qed.
-
-(* ---------- the left merge ---------- *)
-Section Merge.
-Context {K : Type} (eqb : K -> K -> bool) (Heq : forall a b, eqb a b = true <-> a = b).
-
-(* the first row of the mapping with that key (the model's tlookup / nlookup) *)
-Definition lookup_first (m : list (K * Z)) (k : K) : option Z :=
-  match filter (fun q => eqb k (fst q)) m with [] => None | q :: _ => Some (snd q) end.
-
-(* key-unique right-hand side: at most one row matches *)
-Lemma filter_key_unique (m : list (K * Z)) k : NoDup (map fst m) ->
-  (length (filter (fun q => eqb k (fst q)) m) <= 1)%nat.
-Proof.
-  induction m as [|[k' v] m IH]; intros Hn; cbn [filter fst length]; [lia|].
-  inversion Hn as [|? ? Hnot Hn']; subst. destruct (eqb k k') eqn:E.
-  - apply Heq in E. subst k'. cbn [length].
-    replace (filter (fun q => eqb k (fst q)) m) with (@nil (K * Z)); [cbn [length]; lia|].
-    symmetry. destruct (filter (fun q => eqb k (fst q)) m) as [|q r] eqn:F; [reflexivity|].
-    exfalso. assert (Hq : In q (filter (fun q => eqb k (fst q)) m)) by (rewrite F; now left).
-    apply filter_In in Hq as [Hq Eq]. apply Heq in Eq. apply Hnot. rewrite Eq. now apply in_map.
-  - now apply IH.
-Qed.
-
-(* so the merged frame has one row per row of the left frame, carrying the first (= only) match or NaN *)
-Lemma merge_left_ids (m : list (K * Z)) : NoDup (map fst m) ->
-  forall (l : frame K) (r : frame (K * Z)), map snd r = m ->
-  jcol_new_index (df_merge_left eqb l r) = map (lookup_first m) (map snd l).
-Proof.
-  intros Hn l r <-. unfold df_merge_left, jcol_new_index. rewrite <- (map_map snd snd), df_fresh_lab, lab_rows.
-  set (f := fun p : Z * K => match filter (fun q => eqb (snd p) (fst q)) (map snd r) with
-                             | [] => [(snd p, @None Z)]
-                             | ms => map (fun q => (snd p, Some (snd q))) ms
-                             end).
-  induction l as [|p l IH]; [reflexivity|].
-  change (flat_map f (p :: l)) with (f p ++ flat_map f l). rewrite map_app, IH. cbn [map]. f_equal.
-  unfold f, lookup_first.
-  pose proof (filter_key_unique (map snd r) (snd p) Hn) as Hlen.
-  destruct (filter (fun q => eqb (snd p) (fst q)) (map snd r)) as [|q [|q' rest]]; cbn [length] in Hlen; try lia; reflexivity.
-Qed.
-End Merge.
-
-Lemma lookup_first_tlookup m k : lookup_first tkey_eqb m k = tlookup m k.
-Proof.
-  unfold lookup_first. induction m as [|[k' id] m IH]; cbn [filter tlookup fst]; [reflexivity|].
-  destruct (tkey_eqb k k'); [reflexivity | exact IH].
-Qed.
-
-Lemma lookup_first_nlookup m k : lookup_first name_eqb m k = nlookup m k.
-Proof.
-  unfold lookup_first. induction m as [|[k' id] m IH]; cbn [filter nlookup fst]; [reflexivity|].
-  destruct (name_eqb k k'); [reflexivity | exact IH].
-Qed.
-
-(* np.all(column.notna()) and the column's values, against the model's all-or-nothing lookup *)
-Lemma notna_opt_map_all {A} (f : A -> option Z) (l : list A) :
-  match opt_map_all f l with
-  | Some ids => all_true (series_notna (map f l)) = true /\ map f l = map Some ids
-  | None => all_true (series_notna (map f l)) = false
-  end.
-Proof.
-  unfold all_true, series_notna. induction l as [|a l IH]; cbn [opt_map_all map forallb]; [split; reflexivity|].
-  destruct (f a) as [b|]; cbn [opt_bind]; [|reflexivity].
-  destruct (opt_map_all f l) as [bs|]; cbn [opt_bind andb]; [|exact IH].
-  destruct IH as [H1 H2]. split; [exact H1 | cbn [map]; now rewrite H2].
-Qed.
-
-(* ---------- encode_treatment_arrays_to_0_indexed_ids ---------- *)
-Lemma mframe_cols (m : tmapping) (d : mframe) : map snd d = m ->
-  mcol_name d = map (fun e => fst (fst e)) m /\ mcol_dose d = map (fun e => snd (fst e)) m /\ mcol_new_index d = map snd m.
-Proof. intros <-. unfold mcol_name, mcol_dose, mcol_new_index. rewrite !map_map. repeat split. Qed.
-
-(* merge + the NaN check + the four returned arrays, for any frame df_unique whose rows are a key-unique mapping m *)
-Lemma src_encode_treatments_tail (keys : list tkey) (m : tmapping) (d : mframe) : map snd d = m -> NoDup (map fst m) ->
-  (if negb (all_true (series_notna (jcol_new_index (df_merge_left tkey_eqb (df_fresh keys) d)))) then Err 5
-   else Ok (jcol_new_index (df_merge_left tkey_eqb (df_fresh keys) d), mcol_name d, mcol_dose d, mcol_new_index d))
-  = match opt_map_all (tlookup m) keys with
-    | Some ids => Ok (map Some ids, map (fun e => fst (fst e)) m, map (fun e => snd (fst e)) m, map snd m)
-    | None => Err 5
-    end.
-Proof.
-  intros Hd Hn. rewrite (merge_left_ids tkey_eqb tkey_eqb_eq m Hn _ d Hd), df_fresh_lab, lab_rows.
-  rewrite (map_ext _ _ (lookup_first_tlookup m)).
-  destruct (mframe_cols m d Hd) as (-> & -> & ->).
-  pose proof (notna_opt_map_all (tlookup m) keys) as H.
-  destruct (opt_map_all (tlookup m) keys) as [ids|]; [destruct H as [-> ->] | rewrite H]; reflexivity.
-Qed.
-
-Theorem src_encode_treatments_is_model : forall (names : list name) (doses : list Z) (ctrl : name) (existing : option tmap_py),
-  match existing with Some t => NoDup (map fst (tmap_py_rows t)) | None => True end ->
-  src_encode_treatment_arrays names doses ctrl existing
-  = if negb (Nat.eqb (length names) (length doses)) then Err 15
-    else if match existing with Some t => negb (tmap_py_aligned t) | None => false end then Err 15
-    else dor r <- encode_treatments (combine names doses) ctrl (option_map tmap_py_rows existing);
-         Ok (map Some (fst r), map (fun e => fst (fst e)) (snd r), map (fun e => snd (fst e)) (snd r), map snd (snd r)).
-Proof.
-  intros names doses ctrl existing Hex. unfold src_encode_treatment_arrays, df_of_cols2.
-  destruct (Nat.eqb (length names) (length doses)); cbn [negb res_bind]; [|reflexivity].
-  set (keys := combine names doses). unfold encode_treatments.
-  destruct existing as [[[a b] [isint c]]|]; cbn [is_some unwrap res_bind option_map fst snd].
-  - unfold mframe_of_cols, df_of_cols3, tmap_py_aligned. cbn [fst snd].
-    destruct (Nat.eqb (length a) (length b) && Nat.eqb (length b) (length c)); cbn [negb res_bind]; [|reflexivity].
-    unfold tmap_py_rows in *. cbn [fst snd] in *. set (m := combine (combine a b) c) in *. cbv zeta.
-    etransitivity; [apply (src_encode_treatments_tail keys m (df_fresh m)); [now rewrite df_fresh_lab, lab_rows | exact Hex]|].
-    destruct (opt_map_all (tlookup m) keys); reflexivity.
-  - cbv zeta. change (df_del_is_control _) with (src_built_frame ctrl (df_fresh keys)).
-    etransitivity; [apply (src_encode_treatments_tail keys (build_tmapping ctrl keys)); [apply src_built_frame_rows | apply built_keys_NoDup]|].
-    destruct (opt_map_all (tlookup (build_tmapping ctrl keys)) keys); reflexivity.
-Qed.
-
-(* the round-1 reading of the control comparison (Generated/SrcArithC01.v) is the operator the translation applies
-   to the dose column: the constant is redundant now, and consistent *)
-Theorem src_dose_is_control_consistent : forall doses : list Z, series_le0 doses = map src_dose_is_control doses.
-Proof. reflexivity. Qed.
-
-(* ---------- encode_1d_array_to_0_indexed_ids ---------- *)
-Lemma number_rows (su : list name) : forall s,
-  map snd (df_rename_index (lab s (lab s su))) = number_from s su.
-Proof.
-  unfold df_rename_index. induction su as [|k su IH]; intros s; [reflexivity|].
-  rewrite !lab_cons. cbn [map fst snd number_from]. now rewrite IH.
-Qed.
-
-Lemma src_built_nframe_rows (names : list name) :
-  map snd (df_rename_index (df_reset_keep (df_reset_drop (df_sort_values name_cmp (df_drop_duplicates name_eqb (df_fresh names))))))
-  = build_nmapping names.
-Proof.
-  rewrite (dedup_sort_reset name_eqb name_cmp names name_eqb_eq name_cmp_spec).
-  unfold df_reset_keep, build_nmapping. rewrite !df_fresh_lab. apply number_rows.
-Qed.
-
-Lemma src_encode_1d_tail (names : list name) (m : nmapping) (d : vmframe) (tag : Z) : map snd d = m -> NoDup (map fst m) ->
-  (if negb (all_true (series_notna (jcol_new_index (df_merge_left name_eqb (vframe_of_col names) d)))) then Err tag
-   else Ok (jcol_new_index (df_merge_left name_eqb (vframe_of_col names) d), vmcol_val d, vmcol_new_index d))
-  = match opt_map_all (nlookup m) names with
-    | Some ids => Ok (map Some ids, map fst m, map snd m)
-    | None => Err tag
-    end.
-Proof.
-  intros Hd Hn. unfold vframe_of_col.
-  rewrite (merge_left_ids name_eqb name_eqb_eq m Hn _ d Hd), df_fresh_lab, lab_rows.
-  rewrite (map_ext _ _ (lookup_first_nlookup m)).
-  unfold vmcol_val, vmcol_new_index. rewrite <- Hd, !map_map.
-  pose proof (notna_opt_map_all (nlookup (map snd d)) names) as H.
-  destruct (opt_map_all (nlookup (map snd d)) names) as [ids|]; [destruct H as [-> ->] | rewrite H]; reflexivity.
-Qed.
-
-Theorem src_encode_1d_is_model : forall (names : list name) (existing : option smap_py),
-  match existing with Some t => NoDup (map fst (smap_py_rows t)) | None => True end ->
-  src_encode_1d_array names existing
-  = if match existing with Some t => negb (smap_py_aligned t) | None => false end then Err 15
-    else dor r <- encode_names names (option_map smap_py_rows existing) 6;
-         Ok (map Some (fst r), map fst (snd r), map snd (snd r)).
-Proof.
-  intros names existing Hex. unfold src_encode_1d_array, encode_names.
-  destruct existing as [[a [isint c]]|]; cbn [is_some unwrap res_bind option_map fst snd].
-  - unfold vmframe_of_cols, df_of_cols2, smap_py_aligned. cbn [fst snd].
-    destruct (Nat.eqb (length a) (length c)); cbn [negb res_bind]; [|reflexivity].
-    unfold smap_py_rows in *. cbn [fst snd] in *. set (m := combine a c) in *. cbv zeta.
-    etransitivity; [apply (src_encode_1d_tail names m (df_fresh m)); [now rewrite df_fresh_lab, lab_rows | exact Hex]|].
-    destruct (opt_map_all (nlookup m) names); reflexivity.
-  - cbv zeta. etransitivity; [apply (src_encode_1d_tail names (build_nmapping names)); [apply src_built_nframe_rows | apply nbuilt_keys_NoDup]|].
-    destruct (opt_map_all (nlookup (build_nmapping names)) names); reflexivity.
-Qed.
-
-(* ---------- Screen.__init__: the statements that encode names and doses to ids ---------- *)
-Theorem src_init_control_name_is_param : forall c : name, src_init_control_name c = Ok c.
-Proof. reflexivity. Qed.
-
-Lemma res_fold_append_in {A B} (f : list B -> A -> result (list B)) (g : A -> B) l :
-  (forall acc x, In x l -> f acc x = Ok (acc ++ [g x])) -> forall acc, res_fold f l acc = Ok (acc ++ map g l).
-Proof.
-  induction l as [|a l IH]; intros H acc; cbn [res_fold map]; [now rewrite app_nil_r|].
-  rewrite H by now left. cbn [res_bind]. rewrite IH by (intros; apply H; now right). now rewrite <- app_assoc.
-Qed.
-
-Lemma arr2_col_in {A} (d : A) a rows i : (i < a)%nat -> arr2_col d (a, rows) (Z.of_nat i) = Ok (column d i rows).
-Proof.
-  intros H. unfold arr2_col. cbn [fst snd].
-  replace (Z.of_nat i <? 0) with false by lia.
-  replace ((0 <=? Z.of_nat i) && (Z.of_nat i <? Z.of_nat a)) with true by lia. now rewrite Nat2Z.id.
-Qed.
-
-Lemma column_map {A B} (f : A -> B) d i rows : column (f d) i (map (map f) rows) = map f (column d i rows).
-Proof. unfold column. rewrite !map_map. apply map_ext. intros r. apply map_nth. Qed.
-
-Lemma flatten_cols_map {A B} (f : A -> B) d a rows :
-  flatten_cols (f d) a (map (map f) rows) = map f (flatten_cols d a rows).
-Proof.
-  unfold flatten_cols. rewrite concat_map, map_map. f_equal. apply map_ext. intros i. apply column_map.
-Qed.
-
-Lemma combine_fst_snd {A B} (l : list (A * B)) : combine (map fst l) (map snd l) = l.
-Proof. induction l as [|[a b] l IH]; cbn [map combine fst snd]; [reflexivity | now rewrite IH]. Qed.
-
-Lemma np_concat_cons {A} (x : list A) l : np_concat (x :: l) = Ok (concat (x :: l)).
-Proof. reflexivity. Qed.
-
-(* the loop over range(treatment_arity) and the two np.concatenate calls: the column-major flattening of both arrays *)
-Lemma src_flatten {A} (d : A) (a : nat) (rows : list (list A)) (proj : list name * list Z -> list A)
-      (combos : list (list name * list Z)) (cols : nat -> list name * list Z) :
-  (0 < a)%nat -> combos = map cols (seq 0 a) -> (forall i, proj (cols i) = column d i rows) ->
-  np_concat (map proj combos) = Ok (flatten_cols d a rows).
-Proof.
-  intros Ha -> Hp. unfold flatten_cols. rewrite map_map. rewrite (map_ext _ _ Hp).
-  destruct a as [|a]; [lia|]. reflexivity.
-Qed.
-
-(* np.vstack(np.split(flat, arity)).T = the model's unflatten_cols *)
-Lemma nth_firstn_lt {A} (d : A) : forall n j l, (j < n)%nat -> nth j (firstn n l) d = nth j l d.
-Proof. induction n as [|n IH]; intros j l H; [lia|]. destruct l as [|x l]; [now destruct j|]. destruct j; [reflexivity|]. cbn [firstn nth]. apply IH. lia. Qed.
-
-Lemma nth_skipn_add {A} (d : A) : forall k j l, nth j (skipn k l) d = nth (k + j) l d.
-Proof. induction k as [|k IH]; intros j l; [reflexivity|]. destruct l as [|x l]; [now destruct j|]. cbn [skipn Nat.add nth]. apply IH. Qed.
-
-Lemma np_split_chunks {A} (l : list A) a n : (0 < a)%nat -> length l = (a * n)%nat ->
-  np_split l (Z.of_nat a) = Ok (map (fun i => firstn n (skipn (i * n) l)) (seq 0 a)).
-Proof.
-  intros Ha Hl. unfold np_split. replace (Z.of_nat a <=? 0) with false by lia.
-  rewrite Hl, Nat2Z.inj_mul, Z.mul_comm, Z_mod_mult. cbn [Z.eqb negb].
-  rewrite Z.div_mul by lia. now rewrite !Nat2Z.id.
-Qed.
-
-Lemma np_vstack_uniform {A} (l : list (list A)) n : l <> [] -> (forall x, In x l -> length x = n) -> np_vstack l = Ok (n, l).
-Proof.
-  intros Hne H. destruct l as [|r rest]; [contradiction|]. unfold np_vstack.
-  rewrite (H r) by now left.
-  replace (forallb (fun x => Nat.eqb (length x) n) rest) with true; [reflexivity|].
-  symmetry. apply forallb_forall. intros x Hx. apply Nat.eqb_eq. apply H. now right.
-Qed.
-
-Lemma src_unflatten (tflat : list Z) a n : (0 < a)%nat -> length tflat = (a * n)%nat ->
-  (dor r1 <- np_split (map Some tflat) (Z.of_nat a); dor r2 <- np_vstack r1; Ok (arr2_T None r2))
-  = Ok (a, map (map Some) (unflatten_cols a n tflat)).
-Proof.
-  intros Ha Hl. rewrite (np_split_chunks _ a n Ha) by now rewrite map_length. cbn [res_bind].
-  set (l := map Some tflat).
-  rewrite (np_vstack_uniform _ n).
-  - cbn [res_bind]. unfold arr2_T. cbn [fst snd]. rewrite map_length, seq_length. f_equal. f_equal.
-    unfold unflatten_cols. rewrite map_map. apply map_ext_in. intros j Hj. apply in_seq in Hj.
-    unfold column. rewrite !map_map. apply map_ext_in. intros i Hi. apply in_seq in Hi.
-    rewrite nth_firstn_lt by lia. rewrite nth_skipn_add. unfold l.
-    rewrite (nth_indep _ None (Some 0)) by (rewrite map_length; nia). apply map_nth.
-  - destruct a; [lia | discriminate].
-  - intros x Hx. apply in_map_iff in Hx as (i & <- & Hi). apply in_seq in Hi.
-    rewrite firstn_length, skipn_length. unfold l. rewrite map_length. nia.
-Qed.
-
-Lemma tmap_py_rows_of m b : tmap_py_rows (tmap_py_of m b) = m.
-Proof.
-  unfold tmap_py_rows, tmap_py_of. cbn [fst snd].
-  induction m as [|[[n d] i] m IH]; cbn [map combine fst snd]; [reflexivity | now rewrite IH].
-Qed.
-
-Lemma tmap_py_aligned_of m b : tmap_py_aligned (tmap_py_of m b) = true.
-Proof. unfold tmap_py_aligned, tmap_py_of. cbn [fst snd]. rewrite !map_length, !Nat.eqb_refl. reflexivity. Qed.
-
-Lemma smap_py_rows_of m b : smap_py_rows (smap_py_of m b) = m.
-Proof. unfold smap_py_rows, smap_py_of. cbn [fst snd]. apply combine_fst_snd. Qed.
-
-Lemma smap_py_aligned_of m b : smap_py_aligned (smap_py_of m b) = true.
-Proof. unfold smap_py_aligned, smap_py_of. cbn [fst snd]. now rewrite !map_length, Nat.eqb_refl. Qed.
-
-(* the validation of a supplied mapping's id array *)
-Lemma src_check_tmap (tm : option (tmapping * bool)) :
-  (if is_some (tmap_arg_py tm) then
-     dor u <- unwrap (tmap_arg_py tm); dor r <- src_numpy_array_is_0_indexed_integers (snd u);
-     if negb r then Err 3 else Ok tt
-   else Ok tt) = if tmap_bad tm then Err 3 else Ok tt.
-Proof.
-  destruct tm as [[m b]|]; cbn [tmap_arg_py option_map is_some unwrap res_bind tmap_bad fst snd]; [|reflexivity].
-  unfold tmap_py_of. cbn [snd]. rewrite src_valid_ids_is_model. reflexivity.
-Qed.
-
-Lemma src_check_smap (sm : option (nmapping * bool)) :
-  (if is_some (smap_arg_py sm) then
-     dor u <- unwrap (smap_arg_py sm); dor r <- src_numpy_array_is_0_indexed_integers (snd u);
-     if negb r then Err 4 else Ok tt
-   else Ok tt) = if smap_bad sm then Err 4 else Ok tt.
-Proof.
-  destruct sm as [[m b]|]; cbn [smap_arg_py option_map is_some unwrap res_bind smap_bad fst snd]; [|reflexivity].
-  unfold smap_py_of. cbn [snd]. rewrite src_valid_ids_is_model. reflexivity.
-Qed.
-
-Lemma opt_map_all_length {A B} (f : A -> option B) l : forall r, opt_map_all f l = Some r -> length r = length l.
-Proof.
-  induction l as [|a l IH]; intros r E; cbn [opt_map_all] in E; [now inversion E|].
-  destruct (f a); cbn [opt_bind] in E; [|discriminate].
-  destruct (opt_map_all f l) as [y|]; cbn [opt_bind] in E; [|discriminate]. inversion E. cbn [length]. now rewrite (IH y).
-Qed.
-
-Lemma encode_treatments_length keys c ex ids m : encode_treatments keys c ex = Ok (ids, m) -> length ids = length keys.
-Proof.
-  unfold encode_treatments. cbv zeta. set (mm := match ex with Some m0 => m0 | None => build_tmapping c keys end).
-  destruct (opt_map_all (tlookup mm) keys) as [x|] eqn:E; [|discriminate]. intros H. inversion H. subst.
-  now apply opt_map_all_length in E.
-Qed.
-
-(* the statement run on the arrays of a constructor call whose observations and mask are given: after the constructor
-   model's arity and per-plate checks, it IS the id part of the model, read back by [stored_ids] *)
-Theorem src_init_ids_is_model : forall rows a c tm sm,
-  (0 < a)%nat ->
-  match tm with Some (m, _) => NoDup (map fst m) | None => True end ->
-  match sm with Some (m, _) => NoDup (map fst m) | None => True end ->
-  (dor s <- mk_screen rows a c tm sm true true; Ok (stored_ids s))
-  = if negb (arity_ok a rows) then Err 1
-    else if negb (plate_uniform rows) then Err 2
-    else src_init_ids (names_arr a rows) (doses_arr a rows) (map r_sample rows) (map r_plate rows)
-                      (tmap_arg_py tm) (smap_arg_py sm) c.
-Proof.
-  intros rows a c tm sm Ha Htm Hsm. rewrite mk_screen_unfold.
-  destruct (arity_ok a rows); cbn [negb andb res_bind]; [|reflexivity].
-  cbv zeta. change (norm_rows true true rows) with rows.
-  destruct (plate_uniform rows); cbn [negb res_bind]; [|reflexivity].
-  unfold src_init_ids, names_arr, doses_arr, arr2_shape1. cbn [fst snd]. rewrite zrange_of_nat.
-  set (T := map r_treats rows).
-  set (N := map (fun r => map fst (r_treats r)) rows). set (D := map (fun r => map snd (r_treats r)) rows).
-  assert (HN : N = map (map fst) T) by (unfold N, T; now rewrite map_map).
-  assert (HD : D = map (map snd) T) by (unfold D, T; now rewrite map_map).
-  (* the loop *)
-  rewrite (res_fold_append_in _ (fun x => (column [] (Z.to_nat x) N, column 0 (Z.to_nat x) D))).
-  2:{ intros acc x Hx. apply in_map_iff in Hx as (i & <- & Hi). apply in_seq in Hi.
-      rewrite !arr2_col_in by lia. cbn [res_bind]. now rewrite Nat2Z.id. }
-  cbn [res_bind app].
-  assert (Hc : map (fun x => (column [] (Z.to_nat x) N, column 0 (Z.to_nat x) D)) (map Z.of_nat (seq 0 a))
-               = map (fun i => (column [] i N, column 0 i D)) (seq 0 a))
-    by (rewrite map_map; apply map_ext; intros i; now rewrite Nat2Z.id).
-  rewrite Hc. clear Hc.
-  set (e4 := @np_concat name _).
-  assert (E4 : e4 = Ok (flatten_cols [] a N))
-    by (apply (@src_flatten name [] a N (fun x => fst x) _ (fun i => (column [] i N, column 0 i D)) Ha eq_refl); reflexivity).
-  rewrite E4. clear e4 E4. cbn [res_bind].
-  set (e5 := @np_concat Z _).
-  assert (E5 : e5 = Ok (flatten_cols 0 a D))
-    by (apply (@src_flatten Z 0 a D (fun x => snd x) _ (fun i => (column [] i N, column 0 i D)) Ha eq_refl); reflexivity).
-  rewrite E5. clear e5 E5. cbn [res_bind].
-  replace (flatten_cols [] a N) with (map fst (the_tkeys a rows))
-    by (unfold the_tkeys; fold T; rewrite HN; symmetry; exact (flatten_cols_map fst ([], 0) a T)).
-  replace (flatten_cols 0 a D) with (map snd (the_tkeys a rows))
-    by (unfold the_tkeys; fold T; rewrite HD; symmetry; exact (flatten_cols_map snd ([], 0) a T)).
-  (* the two validations *)
-  rewrite src_check_tmap. destruct (tmap_bad tm) eqn:Etm; cbn [res_bind]; [reflexivity|].
-  rewrite src_check_smap. destruct (smap_bad sm) eqn:Esm; cbn [res_bind]; [reflexivity|].
-  (* the treatment encoder *)
-  rewrite src_encode_treatments_is_model.
-  2:{ destruct tm as [[m b]|]; cbn [tmap_arg_py option_map fst snd]; [now rewrite tmap_py_rows_of | exact I]. }
-  rewrite !map_length, Nat.eqb_refl. cbn [negb].
-  replace (match tmap_arg_py tm with Some t => negb (tmap_py_aligned t) | None => false end) with false
-    by (destruct tm as [[m b]|]; cbn [tmap_arg_py option_map fst snd]; [now rewrite tmap_py_aligned_of | reflexivity]).
-  rewrite combine_fst_snd.
-  replace (option_map tmap_py_rows (tmap_arg_py tm)) with (option_map fst tm)
-    by (destruct tm as [[m b]|]; cbn [tmap_arg_py option_map fst snd]; [now rewrite tmap_py_rows_of | reflexivity]).
-  set (et := encode_treatments (the_tkeys a rows) c (option_map fst tm)). change (encode_treatments _ _ _) with et.
-  pose proof (eq_refl : encode_treatments (the_tkeys a rows) c (option_map fst tm) = et) as Et. clearbody et.
-  destruct et as [[tflat tmp]|t]; cbn [res_bind fst snd]; [|reflexivity].
-  (* split / vstack / T *)
-  pose proof (src_unflatten tflat a (length rows) Ha) as Hu.
-  rewrite (encode_treatments_length _ _ _ _ _ Et) in Hu. unfold the_tkeys in Hu. rewrite flatten_cols_length, map_length in Hu.
-  specialize (Hu eq_refl).
-  destruct (np_split (map Some tflat) (Z.of_nat a)) as [r1|]; cbn [res_bind] in Hu |- *; [|discriminate].
-  destruct (np_vstack r1) as [r2|]; cbn [res_bind] in Hu |- *; [|discriminate].
-  assert (Hu' : arr2_T None r2 = (a, map (map Some) (unflatten_cols a (length rows) tflat))) by congruence.
-  rewrite Hu'. clear Hu Hu'.
-  (* samples and plates *)
-  rewrite src_encode_1d_is_model.
-  2:{ destruct sm as [[m b]|]; cbn [smap_arg_py option_map fst snd]; [now rewrite smap_py_rows_of | exact I]. }
-  replace (match smap_arg_py sm with Some t => negb (smap_py_aligned t) | None => false end) with false
-    by (destruct sm as [[m b]|]; cbn [smap_arg_py option_map fst snd]; [now rewrite smap_py_aligned_of | reflexivity]).
-  replace (option_map smap_py_rows (smap_arg_py sm)) with (option_map fst sm)
-    by (destruct sm as [[m b]|]; cbn [smap_arg_py option_map fst snd]; [now rewrite smap_py_rows_of | reflexivity]).
-  set (es := encode_names (map r_sample rows) (option_map fst sm) 6). change (encode_names _ (option_map _ sm) _) with es.
-  clearbody es. destruct es as [[sids smp]|t]; cbn [res_bind fst snd]; [|reflexivity].
-  rewrite (src_encode_1d_is_model _ None I). cbn [option_map].
-  destruct (encode_names (map r_plate rows) None 6) as [[pids pmp]|t] eqn:Ep; cbn [res_bind fst snd]; reflexivity.
-Qed.
-
-(* ---------- ExperimentSpace.n_unique_samples / n_unique_treatments on the tuples a constructed screen stores ---------- *)
-Theorem src_space_n_samples_is_model : forall s : screen,
-  src_space_n_unique_samples (nmap_cols2 (s_smap s)) = Ok (space_n_samples s).
-Proof. reflexivity. Qed.
-
-Theorem src_space_n_treatments_is_model : forall s : screen,
-  src_space_n_unique_treatments (tmap_cols3 (s_tmap s)) = Ok (space_n_treatments s).
-Proof.
-  intros s. unfold src_space_n_unique_treatments, space_n_treatments, tmap_cols3, np_setdiff1d. cbn [snd].
-  rewrite (sort_uniq_of_sorted Z.compare Zcmp_spec) by apply (sort_uniq_sorted Z.compare Zcmp_spec).
-  do 4 f_equal. apply filter_ext. intros x. cbn [existsb]. now rewrite orb_false_r.
-Qed.
+   Model/Encode.v); the order and wiring of the calls is the translation's.
+
+   This file only collects the pieces Proofs/C01Source_<Piece>.v (one per translated function), so that a file of another
+   property that needs the link of one function (Plate.merge needs encode_1d_array_to_0_indexed_ids) imports that piece alone. *)
+From Batchie Require Export Proofs.C01Source_Base Proofs.C01Source_ValidIds Proofs.C01Source_Treatments
+  Proofs.C01Source_Encode1d Proofs.C01Source_Init Proofs.C01Source_Space.
